@@ -48,7 +48,7 @@ reg("C15", ["c15_endian.c"],
          "and 24 bit (16 bit at every alignment 0..7), 32 bit strided by 211 (quick) or all 2^32 (thorough), wider: "
          "every octet lane x every octet value x 3 fills x 8 alignments, all one- and two-bit patterns and their "
          "complements, boundaries, float classes incl. NaN payloads, seeded random; plus exact-size poisoned-arena "
-         "objects; the unsigned 24/40/48/56-bit setters also get containers with mixed bits above the width. Swaps: all 16/24-bit values, strided/all 32-bit, lanes+bits+random for wider. Range predicates: "
+         "objects; the unsigned 24/40/48/56-bit setters also get containers with mixed bits above the width. Swaps: all 16/24-bit values, strided/all 32-bit, lanes+bits+random for wider, and constant expressions with |, ^, ?: at top level as arguments. Range predicates: "
          "2^i +- 3, extremes, random magnitudes. A signature is (codec or helper, chunk); evaluations counts single "
          "store+load (or swap, predicate) comparisons.",
     assumptions=["a value that does not fit the width of an unsigned 24/40/48/56-bit setter is stored modulo 2^width: the header says the argument may hold such values and is not checked, and the library's own signed setters hand sign-extended values to the unsigned ones"],
@@ -90,7 +90,7 @@ reg("C14", ["c14_varint.c"],
          "was used and drained before (offset = used = 1..7, exactly the maximum length free behind it: marks, memory "
          "image, read-back through a buffer source and through the buffer decoder) and read from a source whose driver "
          "is interrupted once (EINTR / EAGAIN) at one of its calls - a success must then carry value, length and octets "
-         "of the encoding. A signature is (generator, type, "
+         "of the encoding; and decoded in place (the result variable is the memory the encoding lies in). A signature is (generator, type, "
          "chunk); evaluations counts round trips and decoder input strings.",
     exhaustive={"quick": "all octet strings of length <= 7 over the 6-octet alphabet as decoder input",
                 "thorough": "all 2^32 values of u32 and s32; all octet strings of length <= 11 over the 6-octet alphabet"})
@@ -362,7 +362,7 @@ reg("C07", ["c07_regp_corrupt.c"], level="fault_enumeration",
          "every single-bit flip of the wire octets, two-bit flips (<= 9 bits apart plus a seeded sample), bursts of "
          "2..16 bits, every octet lost or duplicated. 'fill': on TCP, write requests that fill the frame block to its last "
          "octet and twins with 1-5 stray octets, from octet sources and chunk sources with transfer windows of 2..64 "
-         "octets, blocks 96/128/129/200. A signature is a unit; evaluations counts mutated/generated "
+         "octets, blocks 96/128/129/200; oversized frames also with a damaged header, and the reply to every oversized frame is judged (meta message / receive-overflow response / nothing). A signature is a unit; evaluations counts mutated/generated "
          "frames and sessions judged. Every seventh frame meets a reply channel that is down (all sink writes "
          "refused): classification, no execution and no acknowledgement are judged as before, the reply's form is not.",
     assumptions=["reading choices of the reference decoder (DESIGN.md section 7, C07): a checksum field occupies a "
